@@ -146,6 +146,11 @@ func (e *evaluator) nextMainRecord() (string, bool) {
 				} else {
 					data, ok := e.fsys[name]
 					if !ok {
+						if e.inGetline {
+							// POSIX: getline returns -1 on error; whether the run then
+							// continues with the next operand is not modelled
+							panic(unsupported{"missing operand file reached by getline"})
+						}
 						panic(rtError{"file not found: " + name})
 					}
 					if e.outOpen[name] {
@@ -205,7 +210,9 @@ func (e *evaluator) getline(x *ast.GetlineExpr) Value {
 		}
 		rec = s
 	} else {
+		e.inGetline = true
 		s, ok := e.nextMainRecord()
+		e.inGetline = false
 		if !ok {
 			return num(0)
 		}
